@@ -118,6 +118,19 @@ def produce(config, outdir, repo=None, log=None):
 
 _loaded = {}
 
+_GENERIC_SEG = None
+
+
+def normalize_paths(text):
+    """`crate::parser::Parser::<'a>::expression` -> `crate::parser::Parser::expression`
+    (generic parameter lists of inherent impls inside def paths carry no information for the rules)."""
+    import re
+
+    global _GENERIC_SEG
+    if _GENERIC_SEG is None:
+        _GENERIC_SEG = re.compile(r"::<'?[A-Za-z_][A-Za-z0-9_]*(?:, ?'?[A-Za-z_][A-Za-z0-9_]*)*>(?=::)")
+    return _GENERIC_SEG.sub("", text)
+
 
 def facts_dir(config="default", repo=None):
     """Directory with the fact files for the current tree (produced on demand)."""
@@ -158,7 +171,7 @@ def load(crate="numbat-lib", config="default", repo=None):
     d, hit = facts_dir(config, repo)
     path = os.path.join(d, "%s-%s.json" % (crate, config))
     with open(path) as f:
-        doc = json.load(f)
+        doc = json.loads(normalize_paths(f.read()))
     doc["_cache_hit"] = hit
     doc["_path"] = path
     _loaded[key] = doc
